@@ -136,7 +136,10 @@ def ref_bytes(bw: int, xs: list[int]) -> bytes:
 
 def units_of(arr) -> list[int]:
     """Storage units of a numpy array (C order) as Python ints."""
-    a = np.ascontiguousarray(arr).reshape(-1)
+    a = np.asarray(arr)
+    if a.dtype.byteorder == ">":  # explicit non-native order: take the values, not the swapped memory
+        a = a.astype(a.dtype.newbyteorder("="))
+    a = np.ascontiguousarray(a).reshape(-1)
     isz = a.dtype.itemsize
     if isz in UINT:
         return [int(x) for x in a.view(UINT[isz]).tolist()]
@@ -401,6 +404,15 @@ def build_reprs(ir, d, dims, xs, idx, workdir, torch_ok, item_extra=None):
     if nm in ("INT4", "INT2"):
         s8 = np.array([signed(x, bw) for x in xs], dtype=np.int8).reshape(dims)  # sign-extended storage
         add("array-int8signext", lambda: ir.Tensor(s8, dtype=d), {"k": "array", "d": code, "dims": dims, "elems": units_of(s8)})
+    if npdt.itemsize > 1 and npdt.kind in "iufc":
+        # the same values in an array with an explicit non-native (big-endian) dtype: the tensor must be
+        # rejected (TypeError) or behave like the native one -- never emit bytes in memory order
+        be = native.astype(npdt.newbyteorder(">"))
+        if units_of(be) == units_of(native) and be.dtype.byteorder == ">":
+            bm = {"k": "arraybe", "d": code, "dims": dims, "elems": units_of(native)}
+            add("array-be", lambda: ir.Tensor(be, dtype=d), bm, "be")
+            add("array-benodtype", lambda: ir.Tensor(be), bm, "be")
+            add("ir.tensor(array-be)", (lambda: ir.tensor(be, dtype=d)) if idx % 2 else (lambda: ir.tensor(be)), bm, "be")
     wrapped = _ArrayCompat(native)  # not an ndarray: Tensor keeps it as is and goes through __array__
     add("array-compat", lambda: ir.Tensor(wrapped, dtype=d), {"k": "array", "d": code, "dims": dims, "elems": units_of(native)})
     if len(dims) >= 2:
@@ -583,12 +595,13 @@ def build_reprs(ir, d, dims, xs, idx, workdir, torch_ok, item_extra=None):
                 f"lazy>{name}",
                 (lambda make=make, cache=cache: (lambda inner: ir.LazyTensor(lambda: inner, dtype=d, shape=ir.Shape(dims), cache=cache))(make())),
                 {"k": "lazy", "d": code, "dims": dims, "inner": model},
+                _legal,
             )
     return out
 
 
 def kind_of(name: str) -> str:
-    k = name.split(":")[0].replace("ir.tensor(torch-offset)", "torch")
+    k = name.split(":")[0].replace("ir.tensor(torch-offset)", "torch").replace("ir.tensor(array-be)", "array")
     k = k.replace("ir.tensor(array)", "array").replace("ir.tensor(list)", "array").replace("ir.tensor(torch)", "torch")
     k = k.replace("ir.tensor(proto)", "proto").replace("deserialize(external proto)", "external")
     for p in ("array", "packed", "torch"):
@@ -596,7 +609,7 @@ def kind_of(name: str) -> str:
     return k
 
 
-def oracle(ir, name, d, dims, xs, o, dests, fails, torch_ok):
+def oracle(ir, name, d, dims, xs, o, dests, fails, torch_ok, legal=True):
     """The property itself on the real object `o` (observations) for a LEGAL representation."""
     from onnx import numpy_helper
 
@@ -610,7 +623,8 @@ def oracle(ir, name, d, dims, xs, o, dests, fails, torch_ok):
         fails.append((f"{kind}.{obs}:bw{bw}:{sz}:{what}{extra}", obs, f"{name} {dname}{dims}: {obs} {what}"))
 
     if "_ctor" in o:
-        fail("ctor", "raised")
+        if not (legal == "be" and o["_ctor"] == "TypeError"):  # a non-native byte order may be rejected
+            fail("ctor", "raised")
         return
     if o["dtype"] != int(d):
         fail("dtype", "wrong")
@@ -703,7 +717,7 @@ def work_logical(item: dict) -> list:
             o = observe(make, dests, workdir, order=idx + j)
             fails: list = []
             if legal:
-                oracle(ir, name, d, dims, xs, o, dests, fails, torch_ok)
+                oracle(ir, name, d, dims, xs, o, dests, fails, torch_ok, legal)
                 if ref_ok is False and j == 0:
                     fails.append((f"reference.encode:bw{sbw}", "reference", "onnx.numpy_helper.from_array differs from the spec-level encoder"))
             # typed-field protos built by this file are legal: the ONNX reference decodes them to the same bits
